@@ -84,6 +84,54 @@ pub fn run(rng: &mut Rng, n: usize, rep: &mut Report) {
                     rep.bump("drift_adjust");
                 }
             }
+            2 => {
+                // adjust_i128 / adjust_i64 / adjust_u64 directly, raw values biased to the I80F48 integer-range
+                // boundary (2^79) where a conversion may wrap: result must be None or floor(raw·ratio)
+                use marginfi_type_crate::types::{adjust_i128, adjust_i64, adjust_u64};
+                use num_bigint::BigInt;
+                let raw: i128 = match rng.below(6) {
+                    0 => (1i128 << 79) + rng.range(-3, 3) as i128,
+                    1 => (1i128 << 79) + (rng.u128() >> 49) as i128,
+                    2 => -(1i128 << 79) + rng.range(-3, 3) as i128,
+                    3 => (rng.u128() >> rng.below(60)) as i128,
+                    4 => (rng.u64_mixed() as i128) * 1_000_000_000_000,
+                    _ => rng.u64_mixed() as i128,
+                };
+                let rb: i128 = match rng.below(4) {
+                    0 => ONE,
+                    1 => ONE + rng.below(ONE as u64 / 2) as i128,
+                    2 => rng.below(ONE as u64) as i128,
+                    _ => rng.below(4 * ONE as u64) as i128,
+                };
+                let exact = |x: i128| -> BigInt { (BigInt::from(x) * BigInt::from(rb)) >> 48 };
+                let lim = BigInt::from(1i128 << 79);
+                if let Some(v) = adjust_i128(raw, I80F48::from_bits(rb)) {
+                    rep.bump("adjust_i128_some");
+                    // the function computes floor(I80F48(raw)·ratio) as an integer; anything else is a wrap
+                    if BigInt::from(v) != exact(raw) {
+                        rep.fail(format!("adjust_i128({}, ratio_bits {}) = {} but raw x ratio = {} (wrapped conversion instead of failing closed)", raw, rb, v, exact(raw)));
+                    }
+                } else {
+                    rep.bump("adjust_i128_none");
+                    if BigInt::from(raw).magnitude() < lim.magnitude() && exact(raw).magnitude() < lim.magnitude() && raw >= 0 {
+                        rep.fail(format!("adjust_i128({}, ratio_bits {}) fails although value and product fit", raw, rb));
+                    }
+                }
+                if raw >= 0 && raw <= u64::MAX as i128 {
+                    if let Some(v) = adjust_u64(raw as u64, I80F48::from_bits(rb)) {
+                        if BigInt::from(v) != exact(raw) {
+                            rep.fail(format!("adjust_u64({}, ratio_bits {}) = {} but raw x ratio = {}", raw, rb, v, exact(raw)));
+                        }
+                    }
+                }
+                if raw >= 0 && raw <= i64::MAX as i128 {
+                    if let Some(v) = adjust_i64(raw as i64, I80F48::from_bits(rb)) {
+                        if BigInt::from(v) != exact(raw) {
+                            rep.fail(format!("adjust_i64({}, ratio_bits {}) = {} but raw x ratio = {}", raw, rb, v, exact(raw)));
+                        }
+                    }
+                }
+            }
             _ => {
                 let (l, c, d, p) = gen_reserve_price(rng);
                 check_price(l, c, d, p, rep);
@@ -118,6 +166,9 @@ fn check_price(l: i128, c: u64, d: u8, p: i128, rep: &mut Report) {
     let c_s = ((c as u128) << 48) / pow;
     let explained = |q: u128| -> bool { c_s > 0 && prod_le(q, c_s * pow, p as u128, l as u128) };
     let mut report = |kind: &str, q: i128, rep: &mut Report| {
+        if q < 0 {
+            rep.fail(format!("adjusted price negative for a non-negative price: {} gives {} for price {} with reserve liq_raw_bits={} col_raw={} decimals={}", kind, q, p, l, c, d));
+        }
         if q >= 0 && exceeds(q as u128) {
             if explained(q as u128) {
                 rep.fail(format!(
